@@ -78,6 +78,11 @@ class ScanNet(G.GhostNet):
     def pyvc_getattr(self, interp, name):
         if name in ("states", "actions", "disturbances", "next_states"):
             raise _ScanDone()
+        if name == "elements":
+            # Network.elements is an itertools.chain: a fresh one-shot iterator on every access
+            from contracts.construct_tasks import OneShot
+
+            return OneShot(super().pyvc_getattr(interp, name))
         return super().pyvc_getattr(interp, name)
 
 
@@ -173,14 +178,20 @@ def scan_task():
         eng = interp.call(K, ["SX"], {})
         net = ScanNet(interp)
         interp.loop_rules = {(fn.qualname, 0): readiness_rule}
-        old_product = mod.ns["product"]
+        old_product = mod.ns.get("product")
 
         def product(it_, a, k):
+            if len(a) == 2 and hasattr(a[0], "seq") and hasattr(a[0], "used") and not a[0].used:
+                a[0].used = True  # product() consumes its arguments
+                a = [a[0].seq, a[1]]
             if len(a) == 2 and isinstance(a[0], SSeq) and not T.is_const(a[0].n):
                 return _SymProduct(a[0], it_.iterate(a[1]))
+            if old_product is None:
+                raise Unsupported("itertools.product is not imported here")
             return old_product.fn(it_, a, k)
 
-        mod.ns["product"] = Builtin("itertools.product", product)
+        if old_product is not None:
+            mod.ns["product"] = Builtin("itertools.product", product)
         # the real class declarations must be the ones the spec uses
         for cls_name, decl in (G.VARS.items() if not c.decisions else ()):
             if cls_name == "Node":
@@ -195,17 +206,19 @@ def scan_task():
             pass
         except PyRaise as e:
             raised = e.exc
-        sc = getattr(c, "scan", None)
-        c.oblige("post", "to_function scans all elements of the network", T.const(sc is not None and sc["seq"].desc == "elements"), assume_after=False)
-        if sc is None:
-            return
-        seq = sc["seq"]
+        sc = getattr(c, "scan", None) or getattr(c, "last_search", None)
+        if sc is None and raised is not None:
+            raise Unsupported("to_function raises without a scan over the elements that the rules recognise")
+        seq = sc["seq"] if sc is not None else net.elements_seq()
+        if raised is not None:
+            c.oblige("post", "a RuntimeError of the scan is about an element of the network", T.const(seq.desc.startswith("elements")), assume_after=False)
         if raised is not None:
             c.oblige("post", f"an unready network is refused with RuntimeError (got {raised.cls_name})", T.const(raised.cls_name == "RuntimeError"), assume_after=False)
             el = seq.elem(sc["witness"])
             c.oblige("post", "RuntimeError is raised only if some element is not ready (misses a declared variable group, or has states and no next states)",
                      T.not_(ready_spec(net, el.term)), assume_after=False)
         else:
+            seq = G.GhostNet.pyvc_getattr(net, interp, "elements")  # every element of the network, whatever the scan iterated
             j = c.fresh_index(seq.n, "r")
             el = seq.elem(j)
             c.oblige("post", "past the scan every element of the network is initialised and, if it has states, stepped",
